@@ -71,6 +71,10 @@ EXPLANATION += (
     ' Round 7: the integer type is chosen from the np.round-ed extremes against both bounds of the type (R-ARITH/int-width).'
 )
 
+EXPLANATION += (
+    ' Round 8: the Ensembl pattern has a literal dot as version separator and is matched against the whole identifier (R-IDIOM/ensembl-pattern, regex AST).'
+)
+
 RULE_TEXT = (
     "one obligation per effect root, per mutating helper call, per "
     "rejection point, per log conditional, per layer argument, per uns "
